@@ -58,6 +58,8 @@ def spelling_obs(timeout):
     cells['Data2!H4'] = '=B2*10+SUM(B2:B3)+Data!H5'
     cells['Data!H5'] = '=$B$2*0'
     cells['Data2!B3'] = 0
+    # a sheet-qualified range of another sheet followed by unqualified references in the same formula
+    cells['Data!H6'] = "=SUM(Data2!B2:B3)*1000+B2+SUM('My Sheet'!B2:B2,B2:B2)"
     M = mk_sheets(cells, default='Data')
 
     def h(a: int, b: int, c: int, d: int) -> bool:
@@ -71,6 +73,8 @@ def spelling_obs(timeout):
         if not num_is(ev.evaluate('Data!H1'), c):
             return False
         if not num_is(ev.evaluate('Data!H4'), (d * 10 + d) * 1000 + a) or not num_is(M.cells['Data2!H4'].value, d * 11):
+            return False
+        if not num_is(ev.evaluate('Data!H6'), d * 1000 + a + b + a):
             return False
         return num_is(ev.evaluate('Data!H3'), (c * 10 + b) * 100 + a)
     obs.append(Ob('c03.spellings', h, witness=[(1, 2, 3, 4), (0, -5, 7, 9)], timeout=timeout, cost=30, family='c03.spellings',
